@@ -178,11 +178,13 @@ def check(P, R):
          why='field names and file names containing semicolons and equals signs must round-trip')
 
     ph = P.func(f'{MP}:FieldStorage.parse_header')
-    stores = [st for st in walk_shallow(ph.node) if isinstance(st, ast.Assign) and any(isinstance(t, ast.Subscript) for t in st.targets)]
+    stores = [(st, st.value) for st in walk_shallow(ph.node) if isinstance(st, ast.Assign) and any(isinstance(t, ast.Subscript) for t in st.targets)]
+    # or the options built in one piece: {key: value for m in <matches>}
+    stores += [(x, x.value) for x in walk_shallow(ph.node) if isinstance(x, ast.DictComp)]
     R.require(stores, 'parse_header: option store not found')
-    for st in stores:
+    for (st, val_) in stores:
         sn = ph.cfg.node_of_stmt(st)[0]
-        cl = list(ph.rd.closure_nodes(st.value, sn))
+        cl = list(ph.rd.closure_nodes(val_, sn))
         # follow one level of package helper
         for c in [x for x in cl if isinstance(x, ast.Call)]:
             d = dotted(c.func) or ''
